@@ -736,6 +736,26 @@ pub fn hold_current_task(d: Duration) {
     }
 }
 
+/// CPU time one item of the hot resource costs (`busy_on_a_hot_resource`).
+pub const BUSY_STEP: Duration = Duration::from_micros(2);
+
+/// Model of a handler that is busy for `d` consuming a resource that is *always ready* (a hot
+/// queue, a semaphore with spare permits): it never returns Pending on its own, only tokio's
+/// cooperative budget makes it yield (every 128 items). Each item costs `BUSY_STEP` of CPU, which
+/// passes on the simulated clock inside the poll (`sim_advance_without_yield` in the vendored
+/// tokio) - a task that is always ready would otherwise keep a paused clock from advancing.
+pub async fn busy_on_a_hot_resource(d: Duration) {
+    if d.is_zero() {
+        return;
+    }
+    let hot = tokio::sync::Semaphore::new(4);
+    let end = tokio::time::Instant::now() + d;
+    while tokio::time::Instant::now() < end {
+        drop(hot.acquire().await);
+        tokio::time::sim_advance_without_yield(BUSY_STEP);
+    }
+}
+
 pub type PlanFn = Arc<dyn Fn(&Request<Bytes>) -> Plan + Send + Sync>;
 
 /// Marker the caller may put into request extensions; must never arrive at a handler.
@@ -885,11 +905,13 @@ impl tower::Service<Request<Bytes>> for Svc {
             done: false,
         };
         let poison = req.headers().contains_key("x-panic");
+        let busy = Duration::from_millis(req.headers().get("x-busy-ms").and_then(|v| v.parse().ok()).unwrap_or(0));
         Box::pin(async move {
             if poison {
                 panic!("{DELIBERATE_PANIC}");
             }
             hold_current_task(plan.hold);
+            busy_on_a_hot_resource(busy).await;
             if !plan.delay.is_zero() {
                 tokio::time::sleep(plan.delay).await;
             }
